@@ -193,6 +193,7 @@ def plan(tier):
     units.append(('nesting', tier))
     units.append(('hygiene', tier))
     units.append(('ownalias', tier))
+    units += [('functions', tier, k, 8) for k in range(8)]
     for kind in HISTORY_POOL:
         for first in range(len(HISTORY_POOL[kind])):
             units.append(('history', tier, kind, first))
@@ -258,6 +259,25 @@ def run(unit):
             check_text(kind, text, r, len(text))
         r.count('states', r.counters['evaluations'])
         r.sample({'hygiene': hygiene_texts()[7][1]})
+    elif what == 'functions':
+        # every built-in function (and two unknown ones) x every argument shape, alone and inside a comparison /
+        # a predicate / a property, through every entry point
+        from hplmc.checks.c06 import FUNCTIONS
+
+        args = ['x', 'xs', 'm', 's', 'p', '1', '0', '-1', '2.5', '"a"', 'True', '@A.x', '@A.xs', '@v', '{1, 2}', '{x}', '{x, y, 1}', '{}', '[0 to 3]', '![3 to 1]!', '[x to 3]', 'xs[0]', 'm.f', 'x + 1', '-x', 'abs(x)', 'len(xs)',
+                'x, y', 'x, 1, 2', '', 'not p', 'x > 1', 'forall i in xs: @i > 0']
+        n = 0
+        for f in list(FUNCTIONS) + ['foo', 'Max']:
+            for a in args:
+                n += 1
+                if n % unit[3] != unit[2]:
+                    continue
+                call = f'{f}({a})'
+                for kind, text in (('expr', call), ('expr', f'{call} > 0'), ('cond', f'{call} = y or p'), ('pred', '{ ' + call + ' <= x }'), ('prop', 'globally: no t { ' + call + ' > 0 }'),
+                                   ('prop', 'after s as A: t { not ' + call + ' = 1 } causes u'), ('spec', '# id: f\nglobally: some t { ' + call + ' != 2 }')):
+                    check_text(kind, text, r, len(text))
+        r.count('states', r.counters['evaluations'])
+        r.sample({'function_call': 'max(xs) > 0'})
     elif what == 'ownalias':
         for kind, text in ownalias_texts():
             check_text(kind, text, r, len(text))
@@ -318,7 +338,7 @@ def replay(w):
 def describe(tier):
     b = bounds(tier)
     return {
-        'rule': f"(a) all token sequences of length <= {b['seq_len_full']} over a {len(ALPHABET)}-token alphabet and <= {b['seq_len_core']} over a core alphabet, 5 entry points; (b) all single{' and double' if b['double_edits'] else ''} token edits of a {sum(len(v) for v in c01.CORPUS.values())}-text corpus; (c) all strings of length <= {b['chars_len']} over {len(AWKWARD)} awkward characters and every single insertion of each at every position of the corpus; (d) 20 nesting shapes at depths 1..{b['depth']}; (e) every call history of length <= {b['history_len']} over a 18/19-text pool on one parser object per entry point (5 entry points), last outcome compared with a fresh parser. (g) 24 predicates that refer to the event's own alias in every kind of slot x 6 event positions + files. (f) quantifier hygiene: 4 outer quantifiers x 16 wrappers (every connective, domains through int(...), indices, a second quantifier) x 6 inner quantifiers that re-bind / shadow / leak / never use a variable, through 7 entry-point shapes. A transition = one parser call; states (e) = distinct (last two calls, outcome) triples.",
+        'rule': f"(a) all token sequences of length <= {b['seq_len_full']} over a {len(ALPHABET)}-token alphabet and <= {b['seq_len_core']} over a core alphabet, 5 entry points; (b) all single{' and double' if b['double_edits'] else ''} token edits of a {sum(len(v) for v in c01.CORPUS.values())}-text corpus; (c) all strings of length <= {b['chars_len']} over {len(AWKWARD)} awkward characters and every single insertion of each at every position of the corpus; (d) 20 nesting shapes at depths 1..{b['depth']}; (e) every call history of length <= {b['history_len']} over a 18/19-text pool on one parser object per entry point (5 entry points), last outcome compared with a fresh parser. (h) 29 function names (the 27 built-in ones, an unknown one, a wrongly capitalised one) x 33 argument shapes x 7 entry-point shapes. (g) 24 predicates that refer to the event's own alias in every kind of slot x 6 event positions + files. (f) quantifier hygiene: 4 outer quantifiers x 16 wrappers (every connective, domains through int(...), indices, a second quantifier) x 6 inner quantifiers that re-bind / shadow / leak / never use a variable, through 7 entry-point shapes. A transition = one parser call; states (e) = distinct (last two calls, outcome) triples.",
         'bounds': b,
         'exhaustive': True,
         'assumptions': ['documented failure classes: HplSyntaxError, HplSanityError, TypeError, ValueError for an unknown function name; watchdog of 10 s per call for termination'],
